@@ -1163,6 +1163,272 @@ Proof.
       unfold bind, failM. destruct (query_s sr env (aq_query aq)); cbn; exact I.
 Qed.
 
+(* ------------------------------------------------------------------ *)
+(* rule references, blocks, when blocks, clauses, rules *)
+
+Hypothesis Hsr : forall name s, shape s = [FRoot doc (rf_lets prog) []] ->
+  rel_out eq (rule_status_inner' prog r name s) (sv_rule sr name).
+Hypothesis Hcl : forall env v g, simC eq env v (ev_clause r g) (clause_s sr env g).
+
+Lemma rel_env_last fs env : rel_env fs env -> exists upper, fs = upper ++ [FRoot doc (rf_lets prog) []].
+Proof.
+  induction 1 as [|root lets fs env Hg Hs [u ->]|v fs env Hg Hs [u ->]|v fs env Hs IH|v fs env Hs [u ->]].
+  - exists []. reflexivity.
+  - exists (FBlock root lets [] :: u). reflexivity.
+  - exists (FValue v :: u). reflexivity.
+  - exact IH.
+  - exists (FValue v :: u). reflexivity.
+Qed.
+
+Lemma at_root_out {A B} (R : A -> B -> Prop) (m : M A) s env x :
+  rel_env (shape s) env ->
+  (forall s0, shape s0 = [FRoot doc (rf_lets prog) []] -> rel_out R (m s0) x) ->
+  rel_out R (at_root m s) x.
+Proof.
+  intros Hs Hm. destruct (rel_env_last _ _ Hs) as [upper E]. unfold at_root.
+  assert (Hlen : List.length (frames s) = S (List.length upper)).
+  { unfold shape in E. apply (f_equal (@List.length _)) in E. rewrite map_length, app_length in E. cbn in E. lia. }
+  rewrite Hlen.
+  assert (Hsk : shape (mkState (skipn (List.length upper) (frames s)) (statuses s)) = [FRoot doc (rf_lets prog) []]).
+  { unfold shape in *. cbn. rewrite <- skipn_map, E. rewrite skipn_app, Nat.sub_diag. cbn.
+    rewrite skipn_all2 by lia. reflexivity. }
+  specialize (Hm _ Hsk). destruct (m _) as [[[a r1] s1]| | | |], x; cbn in *; auto.
+Qed.
+
+Theorem named_refines env v n : simC eq env v (named_clause_body' prog r n) (named_s sr n).
+Proof.
+  destruct n as [dep neg custom]. intros HG Hcur s Hs Hv. unfold named_clause_body', Spec.named_s. apply node_out.
+  unfold rule_status_body'.
+  refine (bind_out2 eq eq env _ _ _ _ s _ Hs _ _).
+  - apply keeps_at_root; [exact ss_root|]. unfold rule_status_inner'. destruct (rules_named prog dep); [kk|].
+    apply (ks_first_non_skip r Hks).
+  - eapply at_root_out; [exact Hs|]. intros s0 Hs0. apply Hsr. exact Hs0.
+  - intros st st' <-. apply simS_ret. reflexivity.
+Qed.
+
+Theorem gblock_refines env v b : simC eq env v (gblock_body r b) (block_s sr env b).
+Proof.
+  destruct b as [lets cnf]. intros HG Hcur s Hs Hv. unfold gblock_body, Spec.block_s. rewrite Hcur. cbn [sbind].
+  unfold bind at 1. unfold ctx_root. rewrite Hv. apply rel_out_wrap. apply with_frame_out.
+  apply (Hcnf ((v, lets) :: env) v cnf HG eq_refl).
+  - unfold shape. cbn. apply re_block; assumption.
+  - reflexivity.
+Qed.
+
+Lemma gblock_in_value env rv b : G rv -> simS eq env (with_frame (FValue rv) (gblock_body r b)) (block_s sr ((rv, []) :: env) b).
+Proof.
+  intros Hg s Hs. apply with_frame_out. apply (gblock_refines ((rv, []) :: env) rv b Hg eq_refl).
+  - apply rel_env_push_value; assumption.
+  - reflexivity.
+Qed.
+
+Theorem block_clause_refines env v aq b ne : simC eq env v (block_clause_body r aq b ne) (clause_s sr env (GBlockClause aq b ne)).
+Proof.
+  intros HG Hcur s Hs Hv. unfold block_clause_body. cbn [Spec.clause_s]. apply node_out.
+  refine (simC_bind RQ eq env v _ _ _ _ (ks_ctxq _) (ctx_query_refines env v _) _ HG Hcur s Hs Hv).
+  intros values vals [Hrel HGv]. apply simS_C.
+  destruct Hrel as [|a0 b0 values vals Hab Hrel]; [apply simS_ret; reflexivity|].
+  set (values0 := a0 :: values) in *. set (vals0 := b0 :: vals) in *.
+  assert (Hrel0 : Forall2 rel_q values0 vals0) by (constructor; assumption).
+  change (match vals0 with [] => SOk (if ne then FAIL else SKIP) | _ :: _ => ?X end) with X.
+  change (match values0 with [] => _ | _ :: _ => ?X end) with X.
+  eapply simS_bind.
+  - apply keeps_mapM; [exact ss_refl|exact ss_trans|]. intros x. destruct x; kk.
+  - refine (simS_mapM (fun a b => rel_q a b /\ Gq a) eq env _ _ values0 vals0 _ _ _).
+    + clear -Hrel0 HGv. induction Hrel0; constructor; inversion HGv; subst; auto.
+    + intros x _. destruct x; kk.
+    + intros x y _ [Hxy Hgx]. destruct x as [rv|rv|u], y as [[|] rv'|]; cbn in Hxy; try contradiction; subst.
+      * apply gblock_in_value. exact Hgx.
+      * apply gblock_in_value. exact Hgx.
+      * apply simS_leaf_l. apply simS_ret. reflexivity.
+  - intros sts sts' Hs'. apply Forall2_eq in Hs'. subst. apply simS_ret. destruct (aq_all aq); reflexivity.
+Qed.
+
+Theorem when_clause_refines env v w : simC eq env v (when_clause_body' re prog r w) (when_clause_s sr env w).
+Proof.
+  destruct w as [c|n|ps n]; cbn [when_clause_body' Spec.when_clause_s].
+  - apply access_refines.
+  - apply named_refines.
+  - apply simC_SOut.
+Qed.
+
+Lemma ks_named' n : kshape (named_clause_body' prog r n).
+Proof.
+  destruct n as [dep neg custom]. unfold named_clause_body', rule_status_body'. apply keeps_node.
+  apply keeps_bind; [exact ss_trans| |intros st; apply keeps_ret; exact ss_refl].
+  apply keeps_at_root; [exact ss_root|]. unfold rule_status_inner'. destruct (rules_named prog dep); [kk|].
+  apply (ks_first_non_skip r Hks).
+Qed.
+
+Lemma ks_when_clause' w : kshape (when_clause_body' re prog r w).
+Proof.
+  destruct w as [c|n|ps n]; cbn [when_clause_body'].
+  - apply (ks_access_clause_body re r Hks).
+  - apply ks_named'.
+  - apply (ks_param_call_body prog r Hks).
+Qed.
+
+Theorem when_block_refines env v conds b : simC eq env v (when_block_body' re prog r conds b) (when_block_s sr env conds b).
+Proof.
+  unfold when_block_body', Spec.when_block_s. apply simC_node.
+  eapply simC_bind.
+  - apply keeps_node. apply keeps_cnf_body; [exact ss_refl|exact ss_trans|]. intros w. apply ks_when_clause'.
+  - apply simC_node. apply simC_cnf; intros l x _ _; [apply ks_when_clause'|apply when_clause_refines].
+  - intros st st' <-. destruct st; try (apply simS_C, simS_ret; reflexivity). apply gblock_refines.
+Qed.
+
+Theorem clause_body_refines env v g : simC eq env v (clause_body' re prog r g) (clause_s sr env g).
+Proof.
+  destruct g as [c|n|ps n|aq b ne|conds b]; cbn [clause_body'].
+  - apply access_refines.
+  - apply named_refines.
+  - apply simC_SOut.
+  - apply block_clause_refines.
+  - apply when_block_refines.
+Qed.
+
+(* the memo-free bodies keep the shape of the scope stack *)
+Lemma ks_conds' conds : kshape (cnf_body (when_clause_body' re prog r) conds).
+Proof. apply keeps_cnf_body; [exact ss_refl|exact ss_trans|]. intros w. apply ks_when_clause'. Qed.
+
+Lemma ks_when_block' conds b : kshape (when_block_body' re prog r conds b).
+Proof.
+  unfold when_block_body'. apply keeps_node. apply keeps_bind; [exact ss_trans|apply keeps_node, ks_conds'|].
+  intros st. destruct st; kk.
+Qed.
+
+Lemma ks_clause' g : kshape (clause_body' re prog r g).
+Proof.
+  destruct g as [c|n|ps n|aq b ne|conds b]; cbn [clause_body'].
+  - apply (ks_access_clause_body re r Hks).
+  - apply ks_named'.
+  - apply (ks_param_call_body prog r Hks).
+  - apply (ks_block_clause_body r Hks).
+  - apply ks_when_block'.
+Qed.
+
+Lemma ks_type_block' tn conds b q : kshape (type_block_body' re prog r tn conds b q).
+Proof.
+  unfold type_block_body'. apply keeps_node. apply keeps_bind; [exact ss_trans| |].
+  - destruct conds as [c|]; [|kk]. apply keeps_bind; [exact ss_trans|apply keeps_node, ks_conds'|]. intros st. kk.
+  - intros go. destruct (negb go); [kk|]. apply keeps_bind; [exact ss_trans|apply ks_ctxq|]. intros values.
+    destruct values; [kk|]. apply keeps_bind; [exact ss_trans| |intros; kk].
+    apply keeps_mapM; [exact ss_refl|exact ss_trans|]. intros each. destruct each; kk.
+Qed.
+
+Lemma ks_rule_clause' c : kshape (rule_clause_body' re prog r c).
+Proof.
+  destruct c as [g|conds b|tn conds b q]; cbn [rule_clause_body'].
+  - apply (proj1 (proj2 Hks)).
+  - apply ks_when_block'.
+  - apply ks_type_block'.
+Qed.
+
+Lemma ks_rule' x : kshape (rule_body' re prog r x).
+Proof.
+  unfold rule_body'. apply keeps_node. apply keeps_bind; [exact ss_trans| |].
+  - destruct (rule_conditions x) as [c|]; [|kk]. apply keeps_bind; [exact ss_trans|apply keeps_node, ks_conds'|]. intros st. kk.
+  - intros go. destruct (negb go); [kk|]. apply keeps_bind; [exact ss_trans|kk|]. intros root.
+    apply keeps_with_frame; [exact ss_push|]. apply keeps_cnf_body; [exact ss_refl|exact ss_trans|]. intros c. apply ks_rule_clause'.
+Qed.
+
+Lemma ks_resolve' name : kshape (resolve_body' r name).
+Proof.
+  intros s a recs s' H. unfold resolve_body' in H. destruct s as [[|f fs] st]; [discriminate|]. cbn [frames] in H.
+  assert (Kp : kshape (with_parent (ev_resolve r name))).
+  { apply keeps_with_parent; [exact ss_parent|]. apply (proj1 (proj2 (proj2 (proj2 Hks)))). }
+  assert (Ksc : forall is_root root lets, kshape (resolve_scope' r is_root root lets name)).
+  { intros is_root root lets. unfold resolve_scope'. destruct (find_literal name lets); [kk|].
+    destruct (find_function name lets) as [[ps f0]|]; [apply (proj2 (proj2 (proj2 (proj2 Hks))))|].
+    destruct (find_query name lets); [kk; apply ksq|]. destruct is_root; [kk|exact Kp]. }
+  destruct f as [root lets memo|root lets memo|root|b n m].
+  - eapply Ksc; exact H.
+  - eapply Ksc; exact H.
+  - eapply Kp; exact H.
+  - destruct (assoc name b); [|eapply Kp; exact H]. apply ret_inv in H as (_ & _ & ->). reflexivity.
+Qed.
+
+Theorem rule_body_refines x : simC eq file_env doc (rule_body' re prog r x) (rule_eval_s sr x).
+Proof.
+  unfold rule_body', Spec.rule_eval_s. apply simC_node.
+  eapply (simC_bind (fun (a b : bool) => a = b)).
+  - destruct (rule_conditions x) as [c|]; [|kk]. apply keeps_bind; [exact ss_trans|apply keeps_node, ks_conds'|]. intros st. kk.
+  - destruct (rule_conditions x) as [c|].
+    + eapply simC_bind; [apply keeps_node, ks_conds'| |].
+      * apply simC_node. apply simC_cnf; intros l w _ _; [apply ks_when_clause'|apply when_clause_refines].
+      * intros st st' <-. apply simS_C, simS_ret. reflexivity.
+    + apply simS_C, simS_ret. reflexivity.
+  - intros go go' <-. destruct go; cbn [negb]; [|apply simS_C, simS_ret; reflexivity].
+    intros HG Hcur s Hs Hv. unfold bind at 1. unfold ctx_root. rewrite Hv. apply rel_out_wrap. apply with_frame_out.
+    refine (simC_cnf ((doc, rule_lets x) :: file_env) doc _ (rule_clause_s sr ((doc, rule_lets x) :: file_env)) (rule_cnf x) _ _ HG eq_refl
+              (mkState (FBlock doc (rule_lets x) [] :: frames s) (statuses s)) _ eq_refl).
+    + intros l c _ _. apply ks_rule_clause'.
+    + intros l c _ _. destruct c as [g|conds b|tn conds b q]; cbn [rule_clause_body' Spec.rule_clause_s].
+      * apply Hcl.
+      * apply when_block_refines.
+      * apply simC_SOut.
+    + unfold shape. cbn. apply re_block; assumption.
+Qed.
+
 End Bodies.
+
+(* ------------------------------------------------------------------ *)
+(* the induction: every entry point of the memo-free evaluator, at every fuel, against every fuel of Spec *)
+
+Definition ev_rel (r : ev) (sr : sev) : Prop :=
+  (forall env qi q cur, G cur -> simS RQ env (ev_query r qi q cur None) (qspec sr env qi q cur)) /\
+  (forall env v g, simC eq env v (ev_clause r g) (clause_s sr env g)) /\
+  (forall x, simC eq file_env doc (ev_rule r x) (rule_eval_s sr x)) /\
+  (forall env name, simS RQ env (ev_resolve r name) (resolve sr env name)).
+
+Lemma first_one (r : ev) x s : kshape (ev_rule r x) ->
+  forall X, rel_out eq (ev_rule r x s) X -> rel_out eq (first_non_skip r [x] s) X.
+Proof.
+  intros _ X H. cbn [first_non_skip]. unfold bind. destruct (ev_rule r x s) as [[[st r1] s1]| | | |]; auto.
+  destruct st; cbn; destruct X; cbn in *; auto.
+Qed.
+
+Theorem evalP_refines n : forall m, ev_kshape (evalP re conv prog n) /\ ev_rel (evalP re conv prog n) (run m).
+Proof.
+  induction n as [|n IH]; intros m.
+  - split.
+    + repeat split; intros; intros s a recs s' H; discriminate.
+    + repeat split; intros; try apply simS_oof; apply simS_C, simS_oof.
+  - set (r := evalP re conv prog n) in *.
+    assert (Hks : ev_kshape r) by (apply (IH 0)).
+    assert (HQ : forall m0 env qi q cur, G cur -> simS RQ env (ev_query r qi q cur None) (qspec (run m0) env qi q cur))
+      by (intros m0; apply (proj1 (proj2 (IH m0)))).
+    assert (Hcl : forall m0 env v g, simC eq env v (ev_clause r g) (clause_s (run m0) env g))
+      by (intros m0; apply (proj1 (proj2 (proj2 (IH m0))))).
+    assert (Hrule : forall m0 x, simC eq file_env doc (ev_rule r x) (rule_eval_s (run m0) x))
+      by (intros m0; apply (proj1 (proj2 (proj2 (proj2 (IH m0)))))).
+    assert (Hres : forall m0 env name, simS RQ env (ev_resolve r name) (resolve (run m0) env name))
+      by (intros m0; apply (proj2 (proj2 (proj2 (proj2 (IH m0)))))).
+    assert (Hcnf : forall env v cnf, simC eq env v (cnf_body (ev_clause r) cnf) (sv_cnf (run m) env cnf)).
+    { intros env v cnf. destruct m as [|m']; [apply simC_SOut|]. cbn [Spec.run sv_cnf]. unfold Spec.cnf_s.
+      apply simC_cnf; intros l g _ _; [apply (proj1 (proj2 Hks))|apply Hcl]. }
+    assert (Hsq : forall env q root, cur_value env = SOk root -> G root -> simS RQ env (ev_query r 0 q root None) (sv_query (run m) env q)).
+    { intros env q root Hc Hg. destruct m as [|m']; [apply simS_SOut|]. cbn [Spec.run sv_query].
+      destruct q as [|p0 rest]; [apply simS_SOut|].
+      rewrite (query_s_at (run m') env (p0 :: rest) root Hc) by discriminate. apply (HQ m' env 0 (p0 :: rest) root Hg). }
+    assert (Hsr : forall name s, shape s = [FRoot doc (rf_lets prog) []] -> rel_out eq (rule_status_inner' prog r name s) (sv_rule (run m) name)).
+    { intros name s Hs. destruct m as [|m']; [exact I|]. cbn [Spec.run sv_rule]. unfold Spec.rule_status_s, rule_status_inner', rules_named.
+      destruct (filter (fun x => String.eqb (rule_name x) name) (rf_rules prog)) as [|x [|y rest]]; [exact I| |exact I].
+      apply first_one; [apply (proj1 (proj2 (proj2 Hks)))|].
+      apply (Hrule m' x G_doc eq_refl s); [rewrite Hs; apply re_root|].
+      rewrite <- root_of_shape. fold (shape s). rewrite Hs. reflexivity. }
+    split.
+    + cbn [evalP]. repeat split; cbn [ev_query ev_clause ev_rule ev_resolve ev_fn]; intros.
+      * apply (ks_query_body re conv r Hks).
+      * apply (ks_clause' r Hks).
+      * apply (ks_rule' r Hks).
+      * apply (ks_resolve' r Hks).
+      * apply (ks_fn_body r Hks).
+    + cbn [evalP]. repeat split; cbn [ev_query ev_clause ev_rule ev_resolve ev_fn]; intros.
+      * apply (query_body_refines r (run m) Hks (HQ m) Hcnf (Hres m)). assumption.
+      * apply (clause_body_refines r (run m) Hks (HQ m) Hcnf Hsr).
+      * apply (rule_body_refines r (run m) Hks (HQ m) Hcnf Hsr (Hcl m)).
+      * apply (resolve_body_refines r (run m) Hks (Hres m) Hsq).
+Qed.
 
 End Refine.
